@@ -18,6 +18,7 @@ R6  end-of-stream is concluded only from a read (known finding K5 where a
     failed write is taken as EOF).
 """
 from .. import cfg as C
+from .. import summary as SUM
 from .. import seq as S
 from .. import tp as TP
 from ..model import Program
@@ -579,7 +580,7 @@ def classify_closed(P, r4, r6):
                     r4.ok("%s: closed only for errno in %s" % (f.qname, ks), "dominating condition")
                 # EPIPE comes from a write: K5
                 r6.instance("%s: closed on EPIPE" % f.qname)
-                r6.violation("%s:EPIPE-as-EOF" % f.name,
+                r6.violation("%s:EPIPE-as-EOF" % SUM.owner_name(P, f),
                              "a write failing with EPIPE is taken as end-of-stream: data that already arrived is never delivered (receive answers 0 without reading)",
                              loc=f.loc(e))
                 continue
